@@ -212,6 +212,20 @@ def evaluate(case, d, label=""):
                 if not oracle.close(float(g), r32):
                     raise Violation(label + "compiled-form-vs-formula:after-categories-grew-in-place", f"compiled={float(g)} formula={r32} u={x} v={y} spec={_short(spec)}")
         classes.append("continuum-categories-grown-in-place")
+    # a categorical value depends only on the two names: the unit form is compared with the name-based reference for MANY
+    # label pairs (all of them for small tables, a seeded sample of 2500 for large ones)
+    if cats_sorted is not None and len(cats_sorted) > 1:
+        import itertools
+        import random as _r
+        all_pairs = list(itertools.combinations(cats_sorted, 2))
+        if len(all_pairs) > 2500:
+            all_pairs = _r.Random(len(cats_sorted)).sample(all_pairs, 2500)
+        seg = Segment(0.0, 1.0)
+        for a, b in all_pairs:
+            got = float(d.d(pa.Unit(seg, a), pa.Unit(seg, b)))
+            want = ref((0.0, 1.0, a), (0.0, 1.0, b))
+            if not oracle.close(got, want, rel=1e-5):
+                raise Violation(label + "unit-form-vs-formula:label-pair", f"d({a!r},{b!r})={got} formula={want} spec={_short(spec)}")
     # ordinal / numerical: proportionality to the distance of positions
     src = spec["cat"] if spec["kind"] == "combined" else spec
     if src and src["kind"] in ("ordinal", "numerical") and spec["kind"] != "combined":
